@@ -2,7 +2,7 @@ CA = "crates/tower-resilience-cache/src/"
 TR = "Tracked(tr)"
 UNIT = dict(
     serves=["C10", "C20"],
-    files={"lib": CA + "lib.rs", "store": CA + "store.rs", "eviction": CA + "eviction.rs", "config": CA + "config.rs", "error": CA + "error.rs"},
+    files={"shared": CA + "shared_layer.rs", "lib": CA + "lib.rs", "store": CA + "store.rs", "eviction": CA + "eviction.rs", "config": CA + "config.rs", "error": CA + "error.rs"},
     default_file="lib",
     verus_flags=["--no-erasure-check"],
     rules=[("R1",), ("R2",), ("R5",)],
@@ -22,7 +22,11 @@ UNIT = dict(
         ]),
         "CacheStore::len": dict(file="store"),
         "Cache::clone@Clone": dict(),
+        "Cache::new": dict(),
         "Cache::with_store": dict(),
+        "SharedCacheLayer::new": dict(file="shared"),
+        "SharedCacheLayer::from_config": dict(file="shared"),
+        "SharedCacheLayer::layer@Layer": dict(file="shared"),
         "Cache::poll_ready@Service": dict(rules=[("R10p", "CacheError::Inner")]),
         "Cache::call@Service": dict(rules=[
             ("R4",), ("R3",),
